@@ -18,6 +18,8 @@ import (
 	"io"
 	"os"
 	"path/filepath"
+	"strconv"
+	"reflect"
 	"runtime"
 	"sort"
 	"strings"
@@ -471,6 +473,51 @@ func vInput(form string, doc []byte) any {
 	}
 }
 
+// vRenderValue: every field of a value, pointers followed - whatever the fields are called. Used to tell whether a call
+// changed the Config it went through ("using a Config for any Match* call never changes that Config").
+func vRenderValue(v reflect.Value, depth int) string {
+	if depth > 6 {
+		return "..."
+	}
+	switch v.Kind() {
+	case reflect.Ptr, reflect.Interface:
+		if v.IsNil() {
+			return "nil"
+		}
+		return "&" + vRenderValue(v.Elem(), depth+1)
+	case reflect.Struct:
+		parts := []string{}
+		for i := 0; i < v.NumField(); i++ {
+			parts = append(parts, v.Type().Field(i).Name+":"+vRenderValue(v.Field(i), depth+1))
+		}
+		return "{" + strings.Join(parts, " ") + "}"
+	case reflect.Slice, reflect.Array:
+		parts := []string{}
+		for i := 0; i < v.Len(); i++ {
+			parts = append(parts, vRenderValue(v.Index(i), depth+1))
+		}
+		return "[" + strings.Join(parts, " ") + "]"
+	case reflect.Map:
+		parts := []string{}
+		for _, k := range v.MapKeys() {
+			parts = append(parts, vRenderValue(k, depth+1)+"="+vRenderValue(v.MapIndex(k), depth+1))
+		}
+		sort.Strings(parts)
+		return "map[" + strings.Join(parts, " ") + "]"
+	case reflect.String:
+		return strconv.Quote(v.String())
+	case reflect.Bool:
+		return strconv.FormatBool(v.Bool())
+	case reflect.Int, reflect.Int8, reflect.Int16, reflect.Int32, reflect.Int64:
+		return strconv.FormatInt(v.Int(), 10)
+	case reflect.Uint, reflect.Uint8, reflect.Uint16, reflect.Uint32, reflect.Uint64, reflect.Uintptr:
+		return strconv.FormatUint(v.Uint(), 10)
+	case reflect.Func, reflect.Chan, reflect.UnsafePointer:
+		return "<" + v.Kind().String() + ">"
+	}
+	return "?"
+}
+
 func vClassifyErr(e any) string {
 	switch v := e.(type) {
 	case error:
@@ -735,7 +782,9 @@ func (r *vRunner) doMatch(o vOp) {
 	before := r.sb.scan()
 	ev0 := vEvents()
 	nerr, nlog := len(t.errs), len(t.logs)
+	cfg0 := vRenderValue(reflect.ValueOf(effCfg), 0)
 	call()
+	cfgSame := vRenderValue(reflect.ValueOf(effCfg), 0) == cfg0
 	ev1 := vEvents()
 	after := r.sb.scan()
 
@@ -790,8 +839,8 @@ func (r *vRunner) doMatch(o vOp) {
 	if jsonExtra != "" {
 		jpre = "1" // the model recomputes the payload from the document, the matchers and the options and must agree
 	}
-	fmt.Fprintf(r.w, "obs %d outcome=%s errors=%d logs=%s writes=%s line=%d etext=%s jpre=%s\n",
-		r.idx, outcome, len(errs), logsS, r.sb.writes(before, after), line, etext, jpre)
+	fmt.Fprintf(r.w, "obs %d outcome=%s errors=%d logs=%s writes=%s line=%d etext=%s jpre=%s cfgsame=%s\n",
+		r.idx, outcome, len(errs), logsS, r.sb.writes(before, after), line, etext, jpre, vb(cfgSame))
 	r.sb.pin()
 }
 
